@@ -8,6 +8,16 @@ from hypothesis import strategies as st
 
 PATTERNS = ["uniform", "blob", "counts", "delta"]
 SEEDS = st.integers(0, 2**31 - 1)
+# global intensity scale 10^u, u in -9..9, applied in float64 before the cast to the storage dtype: the
+# centre of mass does not depend on it, and every pattern value stays a normal float32 (>= 1e-12)
+SCALES = st.integers(-9, 9).map(lambda u: float(10.0**u))
+
+
+def target_coordinate(draw, H, W):
+    """Target of a shift: the detector corner (default) or, in a third of the draws, another integer pixel."""
+    if draw(st.integers(0, 2)) != 0:
+        return [0, 0]
+    return [draw(st.integers(0, H - 1)), draw(st.integers(0, W - 1))]
 
 
 # ------------------------------------------------------------------------------------------------
@@ -44,6 +54,7 @@ def make_patterns(case):
         arr = rng.random((a, b, H, W), dtype=np.float32) + np.float32(0.05)
         ii, jj = np.meshgrid(np.arange(a), np.arange(b), indexing="ij")
         arr[ii, jj, rng.integers(0, H, (a, b)), rng.integers(0, W, (a, b))] += np.float32(0.25 * H * W)
+        arr *= np.float32(2.0 ** int(case.get("scale_pow2", 0)))  # exact in float32
         if np.dtype(case["dtype"]) != np.float32 or not np.all(arr > 0):
             raise ValueError("big patterns are float32 and positive (generator bug)")
         return arr
@@ -137,7 +148,7 @@ def com_cases(draw):
         case["dtype"] = draw(st.sampled_from(["uint16", "int32", "float32", "float64"]))
     else:
         case["dtype"] = draw(st.sampled_from(["float32", "float64"]))
-        case["scale"] = draw(st.sampled_from([1.0, 1e-3, 1e4]))
+        case["scale"] = draw(SCALES)
     if pattern == "delta":
         const = case["fit"] == "constant"
         case["plane_r"] = draw(_int_plane_coef(det[0], scan[0], scan[1], const))
@@ -218,6 +229,8 @@ def shift_cases(draw):
     case = {"kind": "shift", "scan": scan, "det": det, "seed": draw(SEEDS)}
     case["pattern"] = draw(st.sampled_from(["uniform", "blob"]))
     case["dtype"] = "float32"
+    case["scale"] = draw(SCALES)
+    case["coordinate"] = target_coordinate(draw, H, W)
     pair = st.tuples(st.integers(0, H - 1), st.integers(0, W - 1)).map(list)
     if draw(st.integers(0, 4)) == 0:
         case["origins"] = [draw(pair)]  # one origin for all patterns (setter broadcasts)
@@ -240,7 +253,7 @@ def pattern_desc(draw, scan, det):
         d["dtype"] = draw(st.sampled_from(["uint16", "int32", "float32", "float64"]))
     else:
         d["dtype"] = draw(st.sampled_from(["float32", "float64"]))
-        d["scale"] = draw(st.sampled_from([1.0, 1e-3, 1e4]))
+        d["scale"] = draw(SCALES)
     if pattern == "delta":
         const = draw(st.booleans())
         d["plane_r"] = draw(_int_plane_coef(det[0], scan[0], scan[1], const))
@@ -295,11 +308,22 @@ def _origin_op(draw, name, scan, det, nver):
             "op": name,
             "batch": draw(st.one_of(st.none(), st.integers(1, n))),
             "mode": draw(st.sampled_from(["bilinear", "bilinear", "nearest", "bicubic"])),
+            "coordinate": target_coordinate(draw, H, W),
+        }
+    if name == "forward":
+        # the one-call workflow: measure, fit, (shift to the target coordinate)
+        return {
+            "op": name,
+            "batch": draw(st.one_of(st.none(), st.integers(1, n))),
+            "method": draw(st.sampled_from(["plane", "constant"])),
+            "shift": draw(st.booleans()),
+            "mode": draw(st.sampled_from(["bilinear", "nearest", "bicubic"])),
+            "coordinate": target_coordinate(draw, H, W),
         }
     return {"op": name}  # set_device, set_shifted
 
 
-_ORIGIN_OPS = ["measure", "measure", "set_tensor", "set_tensor", "fit", "fit", "set_measured", "set_fitted", "set_fitted", "shift", "shift", "set_device", "set_shifted"]
+_ORIGIN_OPS = ["measure", "measure", "set_tensor", "set_tensor", "fit", "fit", "set_measured", "set_fitted", "set_fitted", "shift", "shift", "forward", "forward", "set_device", "set_shifted"]
 _ORIGIN_FILL = [o for o in _ORIGIN_OPS if o not in ("measure", "set_tensor")]
 
 
@@ -404,6 +428,8 @@ def side_shift_cases(draw, side, mode):
     scan = draw(st.sampled_from([[1, 2], [2, 2]]))
     n = scan[0] * scan[1]
     case = {"kind": "shift", "scan": scan, "det": det, "seed": draw(SEEDS), "pattern": "uniform", "dtype": "float32"}
+    case["scale"] = draw(SCALES)
+    case["coordinate"] = target_coordinate(draw, det[0], det[1])
     origins = []
     for k in range(n):
         if k == 0:
@@ -442,6 +468,7 @@ def big_com_cases(draw, exp, side):
     n = a * b
     case = {"kind": "bigcom", "scan": [a, b], "det": [H, W], "pattern": "big", "dtype": "float32", "seed": draw(SEEDS)}
     case["near"] = "2^%d-%s" % (exp, side)
+    case["scale_pow2"] = draw(st.integers(-30, 30))
     case["fit"] = draw(st.sampled_from(["plane", "constant"]))
     case["batches"] = [draw(st.integers(max(1, n // 7), n))]
     case["mask"] = {"type": "binary", "seed": draw(SEEDS), "keep": 0.5} if draw(st.integers(0, 2)) == 0 else None
